@@ -4,20 +4,20 @@
 // checking, std-lib only) and prints one JSON document that translate/wiring/gen_coq.py renders into
 // coq/Gen/GenBypassSites.v and coq/Gen/GenWiring.v.  It translates TABLES, never algorithms:
 //
-//   sites      every occurrence of a context-flag SETTER that lets code skip a protection
-//              (hold.WithBypass, markertypes.WithBypass, markertypes.WithTransferAgents,
-//              quarantine.WithBypass, sanction.WithBypass, banktypes.WithVestingLockedBypass,
-//              internalsdk.WithFeeGrantInUse): canonical flag, package directory, enclosing function
-//   readers    every occurrence of the matching READER (HasBypass, GetTransferAgents,
-//              HasFeeGrantInUse, HasVestingLockedBypass): where a protection consults a flag
-//   key_uses   every use of the context-key identifiers / key string literals behind the flags
-//              (the keys are plain strings, so any package could set them with ctx.WithValue)
-//   regs       every call of a bank-keeper hook registration method (Append/Prepend/Clear
-//              SendRestriction / LockedCoinsGetter)
-//   wiring     facts read from app/app.go: effective registration order of send restrictions and
-//              locked-coins getters (join of keeper construction order in New() with `regs`), the
-//              constructor arguments of those keepers, maccPerms, markerReqAttrBypassAddrs, how
-//              unsanctionableAddrs is built, hooks (gov hooks in particular), begin/end blockers
+//	sites      every occurrence of a context-flag SETTER that lets code skip a protection
+//	           (hold.WithBypass, markertypes.WithBypass, markertypes.WithTransferAgents,
+//	           quarantine.WithBypass, sanction.WithBypass, banktypes.WithVestingLockedBypass,
+//	           internalsdk.WithFeeGrantInUse): canonical flag, package directory, enclosing function
+//	readers    every occurrence of the matching READER (HasBypass, GetTransferAgents,
+//	           HasFeeGrantInUse, HasVestingLockedBypass): where a protection consults a flag
+//	key_uses   every use of the context-key identifiers / key string literals behind the flags
+//	           (the keys are plain strings, so any package could set them with ctx.WithValue)
+//	regs       every call of a bank-keeper hook registration method (Append/Prepend/Clear
+//	           SendRestriction / LockedCoinsGetter)
+//	wiring     facts read from app/app.go: effective registration order of send restrictions and
+//	           locked-coins getters (join of keeper construction order in New() with `regs`), the
+//	           constructor arguments of those keepers, maccPerms, markerReqAttrBypassAddrs, how
+//	           unsanctionableAddrs is built, hooks (gov hooks in particular), begin/end blockers
 //
 // Rows are keyed by (flag, package directory, enclosing function) — file and line are carried only
 // for comments — so moving code or renaming locals does not change a table.  Every shape that is not
@@ -578,6 +578,193 @@ func lhsText(st ast.Stmt) string {
 
 type regEntry struct{ method, pkg, ctor, fn, target, lhs string }
 
+// ---------------------------------------------------------------- simple local bindings in app.New
+//
+// One level of constant propagation, so that introducing or removing a local does not change a fact:
+// a local that is defined by `x := <expr>` as a top-level statement of New, assigned nowhere else in
+// New, whose address is never taken, and whose <expr> is not a composite / function literal, is
+// replaced by <expr> wherever it is used as a WHOLE argument of a call (constructor arguments, hook
+// sets, values appended to the tracked slices, blocker orders).  The replacement is refused (the
+// name is kept, so the fact changes and is reported) when something <expr> mentions — a local or an
+// `app.X` field — is assigned between the definition and the use: then the two are not the same
+// value (e.g. hooks built from app.SanctionKeeper BEFORE the sanction keeper is constructed).
+
+type binding struct {
+	rhs ast.Expr
+	idx int
+}
+
+var bindings map[string]binding
+var assignedAt []map[string]bool // per top-level statement of New: texts of everything assigned inside it
+
+func computeBindings(fn *ast.FuncDecl, stmts []ast.Stmt, tracked map[string]bool) {
+	bindings = map[string]binding{}
+	assignedAt = make([]map[string]bool, len(stmts))
+	count := map[string]int{}
+	addrTaken := map[string]bool{}
+	for i, st := range stmts {
+		set := map[string]bool{}
+		assignedAt[i] = set
+		ast.Inspect(st, func(x ast.Node) bool {
+			switch v := x.(type) {
+			case *ast.AssignStmt:
+				for _, l := range v.Lhs {
+					set[src(l)] = true
+					if id, ok := l.(*ast.Ident); ok {
+						count[id.Name]++
+					}
+				}
+			case *ast.IncDecStmt:
+				set[src(v.X)] = true
+				if id, ok := v.X.(*ast.Ident); ok {
+					count[id.Name] += 2
+				}
+			case *ast.RangeStmt:
+				for _, e := range []ast.Expr{v.Key, v.Value} {
+					if id, ok := e.(*ast.Ident); ok {
+						count[id.Name] += 2
+						set[id.Name] = true
+					}
+				}
+			case *ast.ValueSpec:
+				for _, n := range v.Names {
+					count[n.Name] += 2
+					set[n.Name] = true
+				}
+			case *ast.UnaryExpr:
+				if v.Op == token.AND {
+					if id, ok := v.X.(*ast.Ident); ok {
+						addrTaken[id.Name] = true
+					}
+				}
+			}
+			return true
+		})
+	}
+	if fn.Type.Params != nil {
+		for _, f := range fn.Type.Params.List {
+			for _, n := range f.Names {
+				count[n.Name] += 2
+			}
+		}
+	}
+	for i, st := range stmts {
+		a, ok := st.(*ast.AssignStmt)
+		if !ok || a.Tok != token.DEFINE || len(a.Lhs) != 1 || len(a.Rhs) != 1 {
+			continue
+		}
+		id, ok := a.Lhs[0].(*ast.Ident)
+		if !ok || id.Name == "_" || tracked[id.Name] || count[id.Name] != 1 || addrTaken[id.Name] {
+			continue
+		}
+		switch r := a.Rhs[0].(type) {
+		case *ast.CompositeLit, *ast.FuncLit:
+			continue
+		case *ast.UnaryExpr:
+			if _, isLit := r.X.(*ast.CompositeLit); isLit {
+				continue
+			}
+		}
+		bindings[id.Name] = binding{a.Rhs[0], i}
+	}
+}
+
+// mentionsPath: does e mention the assigned thing p (an identifier, or a selector path such as app.X)?
+func mentionsPath(e ast.Expr, p string) bool {
+	if !strings.Contains(p, ".") {
+		return mentions(e, p)
+	}
+	found := false
+	ast.Inspect(e, func(x ast.Node) bool {
+		if s, ok := x.(*ast.SelectorExpr); ok {
+			t := src(s)
+			if t == p || strings.HasPrefix(t, p+".") {
+				found = true
+			}
+		}
+		return !found
+	})
+	return found
+}
+
+// resolve returns the defining expression of a simply-bound local used at top-level statement useIdx
+// (following chains of such locals), and the statement index at which that expression is evaluated.
+func resolve(e ast.Expr, useIdx int) (ast.Expr, int) {
+	for depth := 0; depth < 4; depth++ {
+		id, ok := e.(*ast.Ident)
+		if !ok {
+			break
+		}
+		b, ok := bindings[id.Name]
+		if !ok || b.idx >= useIdx {
+			break
+		}
+		stale := false
+		for k := b.idx + 1; k < useIdx && !stale; k++ {
+			for p := range assignedAt[k] {
+				if mentionsPath(b.rhs, p) {
+					stale = true
+					break
+				}
+			}
+		}
+		if stale {
+			break
+		}
+		e, useIdx = b.rhs, b.idx
+	}
+	return e, useIdx
+}
+
+// srcR renders e like src, with simply-bound locals that are whole call arguments (or e itself) resolved.
+func srcR(e ast.Expr, useIdx int) string {
+	return srcRd(e, useIdx, 0)
+}
+
+func srcRd(e ast.Expr, useIdx int, depth int) string {
+	if depth > 4 {
+		return src(e)
+	}
+	if _, isID := e.(*ast.Ident); isID {
+		r, at := resolve(e, useIdx)
+		if r != e {
+			return srcRd(r, at, depth+1)
+		}
+		return src(e)
+	}
+	if c, ok := e.(*ast.CallExpr); ok {
+		parts := make([]string, 0, len(c.Args))
+		for i, a := range c.Args {
+			t := srcRd(a, useIdx, depth+1)
+			if i == len(c.Args)-1 && c.Ellipsis != token.NoPos {
+				t += "..."
+			}
+			parts = append(parts, t)
+		}
+		fun := src(c.Fun)
+		if s, ok := c.Fun.(*ast.SelectorExpr); ok {
+			if inner, ok := s.X.(*ast.CallExpr); ok { // f(a).M(b): resolve inside the receiver call too
+				fun = srcRd(inner, useIdx, depth+1) + "." + s.Sel.Name
+			}
+		}
+		return fun + "(" + strings.Join(parts, ", ") + ")"
+	}
+	return src(e)
+}
+
+// constructedBefore: an `app.X` value handed to a hook set must have been assigned before it is read.
+func constructedBefore(text string, evalIdx int) bool {
+	if !strings.HasPrefix(text, "app.") {
+		return true
+	}
+	for k := 0; k < evalIdx && k < len(assignedAt); k++ {
+		if assignedAt[k][text] {
+			return true
+		}
+	}
+	return false
+}
+
 func analyseApp() {
 	var app *fileInfo
 	var appPkg []*fileInfo
@@ -712,6 +899,7 @@ func analyseApp() {
 		return
 	}
 	stmts := newFn.Body.List
+	computeBindings(newFn, stmts, map[string]bool{"markerReqAttrBypassAddrs": true, "unsanctionableAddrs": true})
 
 	// registration sites indexed by "dir.Func" (top-level functions only: a constructor)
 	regsBy := map[string][]Row{}
@@ -723,14 +911,17 @@ func analyseApp() {
 	var entries []regEntry
 	type ctorCall struct {
 		dir, fn, lhs string
-		call        *ast.CallExpr
-		params      []string
+		call         *ast.CallExpr
+		params       []string
+		idx          int
 	}
 	var ctors []ctorCall
 	var bankCtor *ast.CallExpr
 	var bankCtorName string
+	bankCtorIdx := 0
 
-	for _, st := range stmts {
+	for stIdx, st := range stmts {
+		stIdx := stIdx
 		simple := isSimpleStmt(st)
 		ast.Inspect(st, func(x ast.Node) bool {
 			call, ok := x.(*ast.CallExpr)
@@ -755,7 +946,7 @@ func analyseApp() {
 				} else if len(call.Args) == 0 {
 					fn = "<no argument>"
 				}
-				entries = append(entries, regEntry{cond + sel.Sel.Name, "app", "New", fn, src(sel.X), ""})
+				entries = append(entries, regEntry{cond + sel.Sel.Name, "app", "New", fn, srcR(sel.X, stIdx), ""})
 				joined["app.New"] = true
 				return true
 			}
@@ -769,7 +960,7 @@ func analyseApp() {
 				return true
 			}
 			if lt := lhsText(st); lt == "app.BankKeeper" && strings.HasSuffix(path, "/x/bank/keeper") && bankCtor == nil {
-				bankCtor, bankCtorName = call, id.Name+"."+sel.Sel.Name
+				bankCtor, bankCtorName, bankCtorIdx = call, id.Name+"."+sel.Sel.Name, stIdx
 			}
 			dir, inRepo := repoDirOfImport(path)
 			if !inRepo {
@@ -786,15 +977,15 @@ func analyseApp() {
 			variadic := fd != nil && fd.Type.Params != nil && len(fd.Type.Params.List) > 0 &&
 				func() bool { _, v := fd.Type.Params.List[len(fd.Type.Params.List)-1].Type.(*ast.Ellipsis); return v }()
 			lhs := lhsText(st)
-			ctors = append(ctors, ctorCall{dir, sel.Sel.Name, lhs, call, ps})
+			ctors = append(ctors, ctorCall{dir, sel.Sel.Name, lhs, call, ps, stIdx})
 			for _, r := range rs {
 				tgt := "Unrecognised: receiver " + r.Recv + " is not a parameter of " + key
 				for i, p := range ps {
 					if p == r.Recv {
 						if i < len(call.Args) && !variadic && len(ps) == len(call.Args) {
-							tgt = src(call.Args[i])
+							tgt = srcR(call.Args[i], stIdx)
 						} else if i < len(call.Args) && variadic && i < len(ps)-1 {
-							tgt = src(call.Args[i])
+							tgt = srcR(call.Args[i], stIdx)
 						} else {
 							tgt = "Unrecognised: cannot match argument for parameter " + p
 						}
@@ -841,7 +1032,7 @@ func analyseApp() {
 	for _, c := range ctors {
 		var args []string
 		for _, a := range c.call.Args {
-			args = append(args, src(a))
+			args = append(args, srcR(a, c.idx))
 		}
 		ps := c.params
 		if len(ps) != len(args) {
@@ -854,7 +1045,7 @@ func analyseApp() {
 	if bankCtor != nil {
 		var args []string
 		for _, a := range bankCtor.Args {
-			args = append(args, src(a))
+			args = append(args, srcR(a, bankCtorIdx))
 		}
 		fact("ctor.bank.func", bankCtor, bankCtorName)
 		fact("ctor.bank.args", bankCtor, args...)
@@ -917,7 +1108,7 @@ func analyseApp() {
 		var rangeOver, rangeElem []string
 		init := []string{}
 		var first ast.Node
-		for _, st := range stmts {
+		for stIdx, st := range stmts {
 			if !mentions(st, name) {
 				continue
 			}
@@ -934,7 +1125,7 @@ func analyseApp() {
 							if _, isArr := r.Type.(*ast.ArrayType); isArr && s.Tok == token.DEFINE {
 								init = append(init, "literal")
 								for _, e := range r.Elts {
-									elems = append(elems, src(e))
+									elems = append(elems, srcR(e, stIdx))
 								}
 								continue
 							}
@@ -953,7 +1144,7 @@ func analyseApp() {
 									}
 									if ok2 {
 										for _, e := range r.Args[1:] {
-											elems = append(elems, src(e))
+											elems = append(elems, srcR(e, stIdx))
 										}
 										continue
 									}
@@ -1016,7 +1207,8 @@ func analyseApp() {
 	// ---- hooks
 	var hooks, govHooks, govOn []string
 	var govNode ast.Node
-	for _, st := range stmts {
+	for stIdx, st := range stmts {
+		stIdx := stIdx
 		ast.Inspect(st, func(x ast.Node) bool {
 			call, ok := x.(*ast.CallExpr)
 			if !ok {
@@ -1032,11 +1224,12 @@ func analyseApp() {
 			}
 			var args []string
 			for _, a := range call.Args {
-				args = append(args, src(a))
+				args = append(args, srcR(a, stIdx))
 			}
 			hooks = append(hooks, pre+src(sel.X)+" <- "+strings.Join(args, ", "))
 			if len(call.Args) == 1 {
-				if in, ok := call.Args[0].(*ast.CallExpr); ok {
+				hookArg, evalIdx := resolve(call.Args[0], stIdx)
+				if in, ok := hookArg.(*ast.CallExpr); ok {
 					if isel, ok := in.Fun.(*ast.SelectorExpr); ok && isel.Sel.Name == "NewMultiGovHooks" {
 						q, _ := isel.X.(*ast.Ident)
 						if q == nil || !strings.HasSuffix(app.imports[q.Name], "/x/gov/types") {
@@ -1046,7 +1239,11 @@ func analyseApp() {
 							govHooks = append(govHooks, "Unrecognised: variadic spread "+src(in))
 						}
 						for _, a := range in.Args {
-							govHooks = append(govHooks, pre+src(a))
+							t := srcR(a, evalIdx)
+							if !constructedBefore(t, evalIdx) {
+								t = "Unrecognised: read before it is constructed in app.New: " + t
+							}
+							govHooks = append(govHooks, pre+t)
 						}
 						govOn = append(govOn, src(sel.X)+" -> "+lhsText(st))
 						govNode = call
@@ -1080,7 +1277,8 @@ func analyseApp() {
 		var vals []string
 		var node ast.Node
 		n := 0
-		for _, st := range stmts {
+		for stIdx, st := range stmts {
+			stIdx := stIdx
 			ast.Inspect(st, func(x ast.Node) bool {
 				call, ok := x.(*ast.CallExpr)
 				if !ok {
@@ -1106,7 +1304,7 @@ func analyseApp() {
 					return true
 				}
 				for _, a := range call.Args {
-					vals = append(vals, src(a))
+					vals = append(vals, srcR(a, stIdx))
 				}
 				return true
 			})
